@@ -15,12 +15,12 @@ import (
 // Host-call (Omega) engine shared by C04, C07, C08, C09, C10, C33.
 
 type omegaEnv struct {
-	c                                    *Ctx
-	funcs                                []*ssa.Function // every function with signature func(OmegaInput) OmegaOutput (incl. closures)
-	charge, isReadable, isWriteable      types.Object
-	memRead, memWrite                    types.Object
-	errNames                             map[uint64]string
-	registersT                           types.Type
+	c                               *Ctx
+	funcs                           []*ssa.Function // every function with signature func(OmegaInput) OmegaOutput (incl. closures)
+	charge, isReadable, isWriteable types.Object
+	memRead, memWrite               types.Object
+	errNames                        map[uint64]string
+	registersT                      types.Type
 }
 
 func newOmegaEnv(c *Ctx) *omegaEnv {
